@@ -17,7 +17,7 @@ SERIES_KEYS = {
     "density": ["inp", "z"], "pressure": ["inp"], "speed": ["lon", "lat", "t"],
 }
 SAFE_CARRIERS = ["nd_f8", "list_none", "list_nan", "series", "tuple_none", "ma_junk"]
-SAFE_TCARRIERS = ["dt64ns", "epoch_int", "dtindex", "dt64s"]
+SAFE_TCARRIERS = ["dt64ns", "epoch_int", "dtindex", "dt64s", "dtindex_us", "series_ms"]
 
 
 def pick_carriers(case, rng):
